@@ -438,4 +438,203 @@ theorem in_run (r : Nat) : ∀ (l : List Nat) (i : Nat) (x : Nat), i < (digitsPr
         simp only [List.getElem?_cons_succ] at hx
         exact in_run r ys j x (by omega) hx
 
+/-! ## from the closed form to `NumberExactAt`, `PlainSlices` and the digit count -/
+
+theorem u64Step_decimal (feats : Features) : u64Step feats 10 = 19 := by
+  unfold u64Step
+  cases feats.radix <;> cases feats.powerOfTwo <;> rfl
+
+/-- `sliceDigits` of a separator-free slice is its digit run -/
+theorem sliceDigits_run (c : Cfg) (hS : RelClass c) (k : Comp) (l : List Nat) (hn : NoSep c l) :
+    sliceDigits c k l = digitsPrefix c.mantissaRadix l := by
+  unfold sliceDigits
+  have hn' : NoSep { c with debug := false } (Bytes.new l).slc := hn
+  rw [parseDigits_nosep { c with debug := false } k c.mantissaRadix rfl (hS.reach k) (Bytes.new l) hn']
+  simp [Bytes.new]
+
+/-- the facts about one accepted untruncated decimal `Number` -/
+theorem number_exact_of_parse (c : Cfg) (hS : RelClass c) (hpre : c.basePrefix = 0) (hr : c.mantissaRadix = 10)
+    (hb : c.exponentBase = 10) (hre : c.exponentRadix ≤ 255)
+    (isPartial : Bool) (o : POpts) (hdp : charToDigit o.dp 10 = none) (b : Bytes) (neg fv : Bool)
+    (hn : NoSep c b.slc) (h256 : ∀ x ∈ b.slc, x < 256) (hlen : b.slc.length < 2 ^ 60) (n : Number) (cnt : Nat)
+    (h : parseNumber c isPartial o b neg fv = .ok (n, cnt)) (hmany : n.manyDigits = false) :
+    NumberExactAt c n ∧ PlainSlices c n ∧ (sigBytes n.integer n.fraction).length ≤ 19 := by
+  obtain ⟨F1, F2, F3, F4, F5, F6, F7⟩ := parseNumber_facts c hS hpre (by rw [hr, hb]) hre isPartial o b neg fv hn n cnt h hmany
+  rw [hr] at F1 F3 F4 F7
+  rw [u64Step_decimal] at F7
+  unfold fracRun hasPoint intEnd at *
+  rw [hr] at F2 F3 F4 F7
+  have h40 : (2 : Int) ^ 40 = 1099511627776 := by norm_num
+  have h60 : (2 : Nat) ^ 60 = 1152921504606846976 := by norm_num
+  have h63 : (2 : Int) ^ 63 = 9223372036854775808 := by norm_num
+  generalize hs : b.slc = s at *
+  generalize hrest : s.drop b.index = rest at *
+  generalize hdsI : digitsPrefix 10 rest = dsI at *
+  -- the integer slice
+  obtain ⟨ri1, ri2, ri3, ri4⟩ := run_slice 10 rest
+  rw [hdsI] at ri1 ri2 ri3 ri4
+  have hzi : zerosPrefix rest ≤ dsI.length := by rw [← hdsI]; exact zerosPrefix_le_run (by decide) rest
+  generalize hzI : zerosPrefix rest = zi at *
+  have hmemrest : ∀ x ∈ rest, x < 256 := fun x hx => h256 x (by rw [← hrest] at hx; exact List.mem_of_mem_drop hx)
+  -- the fraction slice, in both cases
+  obtain ⟨fbytes, dsF, hfrac, hnF, hdvF, hvalF, hF3, hmemF, hsig, hpl⟩ :
+      ∃ (fbytes : List Nat) (dsF : List Nat),
+        n.fraction.getD [] = fbytes ∧ fbytes.length = dsF.length ∧ dv 10 fbytes = dsF ∧ ValidDigits 10 fbytes ∧
+        n.mantissa = foldMantissa 10 (foldMantissa 10 0 dsI) dsF ∧ (∀ x ∈ fbytes, x < 256) ∧
+        (sigBytes n.integer n.fraction).length ≤ 19 ∧
+        ((n.exponent = -(dsF.length : Int) + n.explicitExp ∨ (dsI.length + dsF.length = 0 ∧ n.exponent = 0)) ∧
+          (numberLit c n).fracDigits = dsF ∧ (∀ fr, n.fraction = some fr → fr = fbytes)) := by
+    by_cases hpt : (s[b.index + dsI.length]? == some o.dp) = true
+    · simp only [hpt, if_true] at F2 F3 F4 F7
+      generalize hk : b.index + dsI.length + 1 = k at *
+      obtain ⟨rf1, rf2, rf3, rf4⟩ := run_slice 10 (s.drop k)
+      generalize hdsF : digitsPrefix 10 (s.drop k) = dsF at *
+      have hmemF : ∀ x ∈ (s.drop k).take dsF.length, x < 256 := fun x hx =>
+        h256 x (List.mem_of_mem_drop (List.mem_of_mem_take hx))
+      refine ⟨(s.drop k).take dsF.length, dsF, (by rw [F2]; rfl), rf1, rf2, rf3, F3, hmemF, ?_, F4, ?_, ?_⟩
+      · -- the count of significant digits
+        rw [F1, F2]
+        unfold sigBytes
+        simp only
+        rw [skipZeros_eq_drop, zerosPrefix_take rest dsI.length (by omega), hzI]
+        by_cases hall : zi = dsI.length
+        · -- integer digits all zero: the fraction's leading zeros are skipped too
+          have hnil : List.drop zi (List.take dsI.length rest) = [] := by
+            apply List.eq_nil_of_length_eq_zero
+            rw [List.length_drop, ri1]; omega
+          rw [if_pos hnil, skipZeros_eq_drop, List.length_drop, rf1]
+          have hzf : zerosPrefix (s.drop k) ≤ dsF.length := by rw [← hdsF]; exact zerosPrefix_le_run (by decide) _
+          rw [zerosPrefix_take _ _ hzf]
+          rcases F7 with h7 | h7
+          · omega
+          · have hi1 : (s[b.index + zi]? == some o.dp) = true := by rw [hall]; exact hpt
+            rw [if_pos hi1, hall, hk] at h7
+            omega
+        · have hne : List.drop zi (List.take dsI.length rest) ≠ [] := by
+            intro h0
+            have := congrArg List.length h0
+            rw [List.length_drop, ri1] at this
+            simp at this; omega
+          rw [if_neg hne, List.length_append, List.length_drop, ri1, rf1]
+          rcases F7 with h7 | h7
+          · omega
+          · -- the byte after the leading zeros is a non-zero digit, not the decimal point
+            have hget : s[b.index + zi]? = rest[zi]? := by rw [← hrest, List.getElem?_drop]
+            have hnotdp : ¬ (s[b.index + zi]? == some o.dp) = true := by
+              intro hc
+              rw [hget] at hc
+              have hx : rest[zi]? = some o.dp := by simpa using hc
+              have := in_run 10 rest zi o.dp (by rw [hdsI]; omega) hx
+              rw [hdp] at this; cases this
+            rw [if_neg hnotdp] at h7
+            have hz0 : zerosPrefix (s.drop (b.index + zi)) = 0 := by
+              have : s.drop (b.index + zi) = rest.drop zi := by rw [← hrest, List.drop_drop]
+              rw [this, ← hzI]; exact zerosPrefix_drop_self rest
+            rw [hz0] at h7
+            omega
+      · show (match n.fraction with | some fd => sliceDigits c .fraction fd | none => []) = dsF
+        rw [F2]
+        simp only
+        rw [sliceDigits_run c hS .fraction _ ((hn.drop _).take _), hr, rf4]
+      · intro fr hfr; rw [F2] at hfr; injection hfr with hfr; exact hfr.symm
+    · simp only [hpt, Bool.false_eq_true, if_false, List.length_nil, Nat.add_zero] at F2 F3 F4 F7
+      refine ⟨[], [], (by rw [F2]; rfl), rfl, rfl, (by intro x hx; cases hx), (by simpa [foldMantissa] using F3),
+        (by intro x hx; cases hx), ?_, (by simpa using F4), ?_, ?_⟩
+      · rw [F1, F2]
+        unfold sigBytes
+        simp only
+        rw [skipZeros_eq_drop, zerosPrefix_take rest dsI.length (by omega), hzI, List.length_drop, ri1]
+        rcases F7 with h7 | h7
+        · omega
+        · by_cases hall : zi = dsI.length
+          · omega
+          · have hget : s[b.index + zi]? = rest[zi]? := by rw [← hrest, List.getElem?_drop]
+            have hnotdp : ¬ (s[b.index + zi]? == some o.dp) = true := by
+              intro hc
+              rw [hget] at hc
+              have hx : rest[zi]? = some o.dp := by simpa using hc
+              have := in_run 10 rest zi o.dp (by rw [hdsI]; omega) hx
+              rw [hdp] at this; cases this
+            rw [if_neg hnotdp] at h7
+            have hz0 : zerosPrefix (s.drop (b.index + zi)) = 0 := by
+              have : s.drop (b.index + zi) = rest.drop zi := by rw [← hrest, List.drop_drop]
+              rw [this, ← hzI]; exact zerosPrefix_drop_self rest
+            rw [hz0] at h7
+            omega
+      · show (match n.fraction with | some fd => sliceDigits c .fraction fd | none => []) = []
+        rw [F2]
+      · intro fr hfr; rw [F2] at hfr; cases hfr
+  obtain ⟨hexp, hfd, hfrsome⟩ := hpl
+  have hint : (numberLit c n).intDigits = dsI := by
+    show sliceDigits c .integer n.integer = dsI
+    rw [F1, sliceDigits_run c hS .integer _ (by rw [← hrest]; exact (hn.drop _).take _), hr, ri4]
+  -- PlainSlices
+  have hps : PlainSlices c n := by
+    refine ⟨by rw [hr, F1]; exact ri3, ?_, ?_, ?_, by rw [hint, hr, F1, ri2], by rw [hfd, hr, hfrac, hdvF]⟩
+    · intro fr hfr; rw [hr, hfrsome fr hfr]; exact hvalF
+    · intro x hx; rw [F1] at hx; exact hmemrest x (List.mem_of_mem_take hx)
+    · intro fr hfr x hx; rw [hfrsome fr hfr] at hx; exact hmemF x hx
+  refine ⟨?_, hps, hsig⟩
+  -- NumberExactAt
+  obtain ⟨z, hz⟩ := sig_decomp n.integer n.fraction
+  have hvs : ValidDigits 10 (sigBytes n.integer n.fraction) := by
+    have := valid_sigBytes hps.validInt hps.validFrac
+    rwa [hr] at this
+  have hD : ofDigits 10 (dsI ++ dsF) = ofDigits 10 (dv 10 (sigBytes n.integer n.fraction)) := by
+    have : dsI ++ dsF = dv 10 (n.integer ++ n.fraction.getD []) := by
+      rw [hfrac, F1]; unfold dv; rw [List.map_append]; unfold dv at ri2 hdvF; rw [ri2, hdvF]
+    rw [this, hz, ofDigits_dv_zeros]
+  have hDlt : ofDigits 10 (dsI ++ dsF) < 10 ^ 19 := by
+    rw [hD]
+    exact Nat.lt_of_lt_of_le (ofDigits_dv_lt hvs) (Nat.pow_le_pow_right (by decide) hsig)
+  have hmant : n.mantissa = ofDigits 10 (dsI ++ dsF) := by
+    rw [hF3, ← foldMantissa_append]
+    by_cases hnil : dsI ++ dsF = []
+    · rw [hnil]; rfl
+    · rw [foldMantissa_eq 10 _ 0 hnil, Nat.zero_mul, Nat.zero_add]
+      have : horner 10 (dsI ++ dsF) 0 = ofDigits 10 (dsI ++ dsF) := rfl
+      rw [this]
+      exact Nat.mod_eq_of_lt (Nat.lt_trans hDlt (by unfold pow2_64; decide))
+  have hnFlen : dsF.length < 2 ^ 60 := by
+    rw [← hnF, ← hfrac]
+    cases hfr : n.fraction with
+    | none => simp
+    | some fr =>
+      have := hfrsome fr hfr
+      simp only [Option.getD_some]
+      by_cases hpt : (s[b.index + dsI.length]? == some o.dp) = true
+      · simp only [hpt, if_true] at F2
+        rw [hfr] at F2; injection F2 with F2
+        rw [F2, List.length_take, List.length_drop]; omega
+      · simp only [hpt, Bool.false_eq_true, if_false] at F2
+        rw [hfr] at F2; cases F2
+  refine ⟨by rw [hmant]; exact Nat.lt_trans hDlt (by decide), ?_, ?_⟩
+  · -- `IsI64 exponent`
+    unfold IsI64
+    rcases hexp with he | ⟨_, he⟩
+    · rw [he]; constructor <;> omega
+    · rw [he]; constructor <;> omega
+  · -- the value
+    rw [hr, hb, powFrac_eq, litFrac_eq]
+    unfold RatEq
+    simp only [hint, hfd]
+    have hE : (numberLit c n).exp = n.explicitExp := rfl
+    rw [hE, hmant]
+    rcases hexp with he | ⟨h0, he⟩
+    · rw [he]
+      have e1 : (-(dsF.length : Int) + n.explicitExp).toNat + (dsF.length + (-n.explicitExp).toNat) =
+          n.explicitExp.toNat + (-(-(dsF.length : Int) + n.explicitExp)).toNat := by omega
+      calc ofDigits 10 (dsI ++ dsF) * 10 ^ (-(dsF.length : Int) + n.explicitExp).toNat *
+            (10 ^ dsF.length * 10 ^ (-n.explicitExp).toNat)
+          = ofDigits 10 (dsI ++ dsF) *
+              10 ^ ((-(dsF.length : Int) + n.explicitExp).toNat + (dsF.length + (-n.explicitExp).toNat)) := by
+            rw [Nat.pow_add, Nat.pow_add]; ring
+        _ = ofDigits 10 (dsI ++ dsF) * 10 ^ (n.explicitExp.toNat + (-(-(dsF.length : Int) + n.explicitExp)).toNat) := by
+            rw [e1]
+        _ = ofDigits 10 (dsI ++ dsF) * 10 ^ n.explicitExp.toNat * 10 ^ (-(-(dsF.length : Int) + n.explicitExp)).toNat := by
+            rw [Nat.pow_add]; ring
+    · have hnil : dsI ++ dsF = [] := List.eq_nil_of_length_eq_zero (by rw [List.length_append]; exact h0)
+      rw [hnil]
+      simp [ofDigits]
+
 end LexVerif.Props.C01Number
